@@ -634,6 +634,8 @@ def replay(ctx, rep):
         t = s.t
         if t.died:
             return True, 'process died: %s' % t.died
+        if 'flow-not-torn-down' in rep.get('key', ''):
+            return tg.replay_torn_down(s, case)
         for i, f in enumerate(t.flows):
             up, down = wrote.get((i, 'app'), b''), wrote.get((i, 'dst'), b'')
             if f.dst.delivered != up[:len(f.dst.delivered)] or f.app.delivered != down[:len(f.app.delivered)]:
